@@ -923,6 +923,19 @@ E16_TABLE = [("Op::%s" % v, {C02.INNER: "Op", C02.OP0: v}, [("as Op", "1"), ("as
     ("ArrayAccess", {C02.INNER: "ArrayAccess"}, [("as ArrayAccess", "0"), ("as ArrayAccess", "1")]),
     ("TupleAccess", {C02.INNER: "TupleAccess"}, [("as TupleAccess", "0")]),
     ("StructAccess", {C02.INNER: "StructAccess"}, [("as StructAccess", "0")]),
+    ("ArrayRepeatLiteral", {C02.INNER: "ArrayRepeatLiteral"}, [("as ArrayRepeatLiteral", "0")]),
+    ("ArrayRepeatLiteralConst", {C02.INNER: "ArrayRepeatLiteralConst"}, [("as ArrayRepeatLiteralConst", "0")]),
+    ("If (condition)", {C02.INNER: "If"}, [("as If", "0")]),
+    ("Match (scrutinee)", {C02.INNER: "Match"}, [("as Match", "0")]),
+    ("ShortCircuitAnd (left operand)", {C02.INNER: "Op", C02.OP0: "ShortCircuitAnd"}, [("as Op", "1")]),
+    ("ShortCircuitOr (left operand)", {C02.INNER: "Op", C02.OP0: "ShortCircuitOr"}, [("as Op", "1")]),
+]
+E16_STMT_TABLE = [
+    ("Let", {C02.INNER: "Let"}, [("as Let", "2")]),
+    ("LetMut", {C02.INNER: "LetMut"}, [("as LetMut", "2")]),
+    ("Expr", {C02.INNER: "Expr"}, [("as Expr", "0")]),
+    ("VarAssign (value)", {C02.INNER: "VarAssign"}, [("as VarAssign", "2")]),
+    ("ForEachLoop (array)", {C02.INNER: "ForEachLoop"}, [("as ForEachLoop", "1")]),
 ]
 
 
@@ -931,32 +944,33 @@ def rule_e16(ctx):
     evaluates each of its operands whatever their values are, so the lowering of the node has to lower every operand on every path
     (a shortcut such as `x * 0 = 0` that skips the other operand drops its assignments)."""
     res = RuleResult("E16", "operators, casts and accesses lower every operand on every path through their arm")
-    f = C02.fn_of(ctx, C02.EXPR_COMPILE)
-    body = ctx.body(f["id"])
-    rets = body.returns()
     n = 0
-    for label, assume, kids in E16_TABLE:
-        succ = body.pruned_succ(assume)
-        region = set(body.reachable([0], succ=succ))
-        if len(region) == len(body.reachable([0])) or len(region) < 4:
-            raise AnchorMissing("E16: cannot isolate the %s arm" % label)
-        nsucc = lambda x, succ=succ: [y for y in succ(x) if not body.blocks[y]["cleanup"]]
-        for kid in kids:
-            n += 1
-            via = set()
-            for b in region:
-                t = body.term(b)
-                if t and t["k"] == "call" and C02._is_compile_call(ctx, t) and t["args"] and t["args"][0]["k"] in ("copy", "move"):
-                    if any(r == C02.SELF1 and tuple(p[:3]) == ("inner",) + kid for (r, p) in body.trace(t["args"][0]["place"])):
-                        via.add(b)
-            w = body.path(0, rets, blocked=via, succ=nsucc) if via else [0]
-            if w:
-                res.bad(Finding("E16", f["id"], "%s: operand %s is not lowered on some path" % (label, kid[1]),
-                                "a path through the %s arm returns without lowering this operand: assignments and failing operations inside it are dropped "
-                                "(`({ n = n + 1u8; n }) * 0u8` leaves n unchanged)" % label,
-                                body.term(w[-2])["sp"] if len(w) > 1 and body.term(w[-2]) else f["sp"], witness=["bb%d" % x for x in w[-8:]]))
-            else:
-                res.ok({"construct": label, "operand": kid[1], "verdict": "lowered on every path"})
+    for fspec, table in ((C02.EXPR_COMPILE, E16_TABLE), (C02.STMT_COMPILE, E16_STMT_TABLE)):
+      f = C02.fn_of(ctx, fspec)
+      body = ctx.body(f["id"])
+      rets = body.returns()
+      for label, assume, kids in table:
+          succ = body.pruned_succ(assume)
+          region = set(body.reachable([0], succ=succ))
+          if len(region) == len(body.reachable([0])) or len(region) < 4:
+              raise AnchorMissing("E16: cannot isolate the %s arm" % label)
+          nsucc = lambda x, succ=succ: [y for y in succ(x) if not body.blocks[y]["cleanup"]]
+          for kid in kids:
+              n += 1
+              via = set()
+              for b in region:
+                  t = body.term(b)
+                  if t and t["k"] == "call" and C02._is_compile_call(ctx, t) and t["args"] and t["args"][0]["k"] in ("copy", "move"):
+                      if any(r == C02.SELF1 and tuple(p[:3]) == ("inner",) + kid for (r, p) in body.trace(t["args"][0]["place"])):
+                          via.add(b)
+              w = body.path(0, rets, blocked=via, succ=nsucc) if via else [0]
+              if w:
+                  res.bad(Finding("E16", f["id"], "%s: operand %s is not lowered on some path" % (label, kid[1]),
+                                  "a path through the %s arm returns without lowering this operand: assignments and failing operations inside it are dropped "
+                                  "(`({ n = n + 1u8; n }) * 0u8` leaves n unchanged)" % label,
+                                  body.term(w[-2])["sp"] if len(w) > 1 and body.term(w[-2]) else f["sp"], witness=["bb%d" % x for x in w[-8:]]))
+              else:
+                  res.ok({"construct": label, "operand": kid[1], "verdict": "lowered on every path"})
     return res
 
 
